@@ -53,7 +53,7 @@ CHECKS = {
              "source that records each request and can be scripted. For every produced value (random bytes/strings, salts of 15 hashers x "
              "admissible sizes read back by the independent extractor, salts of the other 33 registered handlers that draw one (read back "
              "through the handler's own parser; cisco_type7's integer salt as a 16-value space), TOTP keys, application secrets, generated words/phrases, django_disabled "
-             "suffixes, libpass salts, salts of passlib.ext.django's hasher adapter after a call with an explicit salt) the run sees draws and value side by side: size and alphabet; the draws must be able to cover the declared "
+             "suffixes, libpass salts, salts of passlib.ext.django's hasher adapter after a call with an explicit salt, salts of an application handler on passlib's framework whose generation alphabet is narrower than the accepted one) the run sees draws and value side by side: size and alphabet; the draws must be able to cover the declared "
              "space; when draw space and value space have the same size, uniformity is equivalent to injectivity, which is checked over the "
              "sample and by flipping single bits of a recorded answer and replaying (the value must change); for spaces <= 2^16 ALL "
              "answers of the source are enumerated and every declared value must be produced equally often (exhaustive sub-case, also when "
@@ -113,14 +113,14 @@ CHECKS = {
         design_ref="DESIGN.md section 4, C10"),
     "C13": dict(
         level="exploration",
-        technique="deterministic simulation (seeded discrete-event histories under a simulated clock) with an independent RFC 4226/6238 reference as oracle",
+        technique="deterministic simulation (seeded discrete-event histories under a simulated clock; 2-3 caller threads stepped by a seeded baton scheduler) with an independent RFC 4226/6238 reference as oracle",
         text="Seeded exploration: every token a simulated device emits -- real TOTP.generate() reading the simulated, skewed and "
              "stepping device clock, or given int/float/aware/naive datetime times placed on and around period boundaries up to 2^40 -- "
              "is compared with an independent HOTP/TOTP reference, together with counter, validity interval, remaining/valid under the "
              "same clock, and all key spellings; histories include key rotation on a live object (TOTP.key assigned after the object has "
-             "generated and been serialised: its codes must follow the new secret). Weaker fit: the truth of C13 does not depend on a schedule; the simulator only owns the "
+             "generated and been serialised: its codes must follow the new secret); in 7% of the runs 2-3 caller threads (own or one shared TOTP object) generate, match and verify at once under the baton scheduler of C19 (pre-emption at every source line): the module keeps no per-call state, every code is still the RFC's. Weaker fit: the truth of C13 does not depend on a schedule; the simulator only owns the "
              "clock seam. Evidence over sampled histories, not proof.",
-        note="Trusted: the ~10-line reference HOTP (stdlib hmac+struct). Keys 1-64 bytes, sha1/256/512, digits 6-10, periods 1-3600, times < 2^40.",
+        note="Trusted: the ~10-line reference HOTP (stdlib hmac+struct). Keys 1-64 bytes, sha1/256/512 (15% of accounts: sha224/384, sha3_224/256/512, blake2b/s), digits 6-10, periods 1-3600, times < 2^40 and, in 4% of runs, 2^56..2^60.",
         design_ref="DESIGN.md section 4, C13"),
     "C14": dict(
         level="exploration",
@@ -134,15 +134,15 @@ CHECKS = {
              "scenarios reach what random histories cannot: 'collide' lets the reference search 1500-4000 counters for two with the same "
              "code, moves the clock into the later one's period, submits and replays it (earliest-first clause); 'sweep' enumerates a small "
              "box exhaustively (periods 1-5 x windows 0-7 x skews -2..2 x last-counter offsets x every time in a range x 7 neighbouring "
-             "codes). One seed = one replayable history; failures are minimised to a replay file.",
+             "codes). Submitted codes come as text, bytes, ints, with ASCII blanks/dashes or Unicode blanks; 4% of the runs have clocks set absurdly wrong (2^56..2^60 s). One seed = one replayable history; failures are minimised to a replay file.",
         note="Trusted: reference HOTP and the 25-line reference matcher. Bounds: <=3 accounts, <=120 ops/run, periods 1-3600, windows 0-900, tokens as digit strings/bytes/non-negative ints.",
         design_ref="DESIGN.md section 4, C14"),
     "C15": dict(
         level="exploration",
         technique="deterministic simulation: provisioning messages and durable records are the serialised forms; restarts and hostile/corrupted sources are injected faults; field-by-field and token oracle",
-        text="In the totp world every provisioning (URI/JSON/dict through a stock or the same using()-factory) and every server restart from "
+        text="In the totp world every provisioning (URI/JSON/dict through a stock or the same using()-factory, the generic or the format's own loader, to_uri with explicit label/issuer; a LIVE object handed to from_source() of a factory with another wallet and its own / the library's / different class defaults) and every server restart from "
              "its durable record is a serialisation round trip, checked field by field and by codes at three probe times against the reference; "
-             "21 kinds of inconsistent/incomplete/truncated sources must raise ValueError; after a key rotation on the live server object its "
+             "22 kinds of inconsistent/incomplete/truncated sources (conflicting issuers also when they merely look alike: case, folded accents, blanks) must raise ValueError; after a key rotation on the live server object its "
              "devices are re-provisioned from its serialised form. Weaker fit: round-tripping is a pure function; the "
              "simulator supplies the histories (restart, reprovision, re-key) and hostile labels/issuers/class defaults.",
         note="AppWallet encryption cannot run (no 'cryptography' package on this image) and is not claimed. Labels/issuers without ':' and without leading/trailing blanks.",
@@ -170,7 +170,7 @@ CHECKS = {
              "Django-style unusable password) evolve under disable (with/without the current hash), disable again, enable, logins with the "
              "right / wrong / empty password and with the record text itself, is_enabled, with unix_disabled (markers '!'/'*', configured "
              "or default) or django_disabled at a random list position (optionally with the other disabled-account handler behind it, and with plaintext / "
-             "ldap_plaintext listed last, which also claims marker-prefixed text); records are handed over as text or bytes, and with policy updates and restarts in between. A reference grammar decides every answer; which scheme "
+             "ldap_plaintext listed last, which also claims marker-prefixed text); records are handed over as text or bytes (a normal hash must come back as the very value given), with policy updates and restarts in between, and with 'neighbour' contexts / using() variants that carry another marker created mid-history (each keeps its own). A reference grammar decides every answer; which scheme "
              "owns a record is computed without the context (first configured scheme whose own identify() claims it) and the context's "
              "identify() is judged against it; 'verification against None costs a dummy verification' is observed deterministically as digest "
              "computations of the default scheme counted through a counting subclass given in schemes= (one per call, one more right after "
@@ -183,7 +183,7 @@ CHECKS = {
         level="exploration",
         technique="deterministic simulation of real threads: seeded baton-passing scheduler pre-empting at sys.settrace line/opcode events (sticky walk, PCT, hot-spot, uniform, park-one-thread-mid-operation), fork-per-run fresh first-use state, cooperative locks; per-thread outcome vs single-thread outcome",
         text="Each run forks a process in which nothing has been used yet, builds one first-use object (LazyCryptContext with/without "
-             "onload or with an onload that fails once, a shipped preset, a multi-backend hasher, a lazy base64 engine, an unloaded registry name, a context's record "
+             "onload or with an onload that fails once, a shipped preset, a multi-backend hasher (in 40% of these runs on a host whose crypt(3) knows none of the formats, so that the first candidate backend is tried and found unusable mid-selection and the pure-Python backends with their lazily built tables are the ones initialised), a lazy base64 engine, an unloaded registry name, a context's record "
              "caches, the digest-info cache, passlib.pwd's word sets, a libpass context, an application's own handler module registered by path "
              "together with a lazy PrefixWrapper around one of its handlers) or an initialised shared context with a "
              "non-reentrant crypt(3) model, and lets 2-3 real "
